@@ -232,12 +232,15 @@ def h_mutated(eng, params):
         k = eng.choose(range(1, 3), 'ext')
         pkt = [pkt[0], pkt[1] + k] + pkt[2:] + [eng.int('ext', 0, 255) for _ in range(k)]
     tail = ref.enc_pingresp() if m == 'truncate' else []
+    if params.get('then_pubrel') and fields.get('msgId') is not None:
+        # the broker goes on with the exchange the (possibly corrupted) PUBLISH belonged to
+        tail = tail + ref.enc_ack(ref.PUBREL, fields['msgId'])
     return run_and_check(eng, w, c, req, list(pkt) + tail)
 
 
 HARNESSES = {'arbitrary': h_arbitrary, 'mutated': h_mutated}
 
-STATES = [('pubsubs', 'idle', 0), ('pubsubs', 'connecting', 0), ('pubsubs', 'connected', 0), ('pubsubs', 'connected', 5),
+STATES = [('pubsubs', 'idle', 0), ('pubsubs', 'connecting', 0), ('pubsubs', 'reconnecting', 0), ('publisher', 'reconnecting', 0), ('pubsubs', 'connected', 0), ('pubsubs', 'connected', 5),
           ('publisher', 'connecting', 0), ('publisher', 'connected', 0), ('subscriber', 'connecting', 3), ('subscriber', 'connected', 0)]
 
 
@@ -257,6 +260,9 @@ def shards(tier):
                     continue
                 for t in (2, 3, 4, 5, 6, 7, 9, 11, 13):
                     out.append(('arbitrary', {'profile': profile, 'state': state, 'keepalive': ka, 'n': n, 'type': t}))
+        if state == 'connected' and profile != 'publisher':
+            for kind in ('PUBLISH1', 'PUBLISH2'):
+                out.append(('mutated', {'profile': profile, 'state': state, 'keepalive': ka, 'kind': kind, 'mutation': 'byte', 'size': 1, 'then_pubrel': True}))
         if state != 'idle':
             for kind in scen.BROKER_KINDS:
                 for m in ('byte', 'truncate', 'shorten', 'extend'):
@@ -274,11 +280,11 @@ META = {
     'rule': 'one path per feasible branch combination of dataReceived on the symbolic bytes; non-trivial = paths that aborted, paths whose '
             'effects were justified by a reference-decoded packet, paths where decode failed',
     'bounds': {
-        'quick': '(a) N symbolic bytes in one chunk, N<=4 in every profile/state (idle, connecting, connected, connected with keepalive) and '
+        'quick': '(a) N symbolic bytes in one chunk, N<=4 in every profile/state (idle, connecting, connecting on a resumed persistent session with requests carried over, connected, connected with keepalive) and '
                  'N<=6 for the connected pubsubs client with a QoS1 PUBLISH, two QoS2 PUBLISH (one in PUBREL stage), SUBSCRIBE, UNSUBSCRIBE and a '
                  'stored inbound QoS2 message pending (first byte: every type nibble x symbolic flags); (b) every broker packet kind with symbolic '
                  'fields (1 topic character, 1 payload byte, 1 granted code; 2 each for PUBLISH against the busy pubsubs client) with one byte position replaced by a free byte, truncated by 1..4 '
-                 'bytes, consistently shortened by 1..3, extended by 1..2 symbolic bytes; afterwards loss (if aborted) and 101000 s of virtual time',
+                 'bytes, consistently shortened by 1..3, extended by 1..2 symbolic bytes; a mutated PUBLISH followed by a well-formed PUBREL bearing its identifier; afterwards loss (if aborted) and 101000 s of virtual time',
         'thorough': 'N<=5 everywhere, N<=7 for the busy connected pubsubs client; mutations in every profile/state',
     },
     'stubs': ['fake transport (loss reported as a separate event after abort)', 'twisted task.Clock', 'jitter: fixed sequence k/16 (timer order is the subject of C08/C13)'],
